@@ -9,10 +9,32 @@ PROP = "C06"
 
 
 def units(tier, seed):
-    return joint.units(tier, seed, delim_in_prefix=True)
+    return joint.units(tier, seed, delim_in_prefix=True, prefix_subclass=True)
+
+
+def check_subclass(conv, model, Q, fails, where):
+    """A subclass that overrides standardize_prefix: standardize_curie rewrites the prefix part *accordingly*, i.e. as the
+    object's own standardize_prefix says, and expansion follows."""
+    d = model.delimiter
+    for s in Q:
+        head, sep, tail = s.partition(d)
+        sp = conv.standardize_prefix(head) if sep else None
+        want = None if sp is None else sp + d + tail
+        got = safe(conv.standardize_curie, s)
+        if got != want:
+            fails.append(("standardize_curie/disagrees-with-standardize_prefix-of-the-same-object", f"{where}: standardize_curie({s!r}) = {got!r}, but standardize_prefix({head!r}) = {sp!r}"))
+        wantx = None if sp is None else model.expand_pair(sp, tail)
+        gotx = safe(conv.expand, s)
+        if gotx != wantx:
+            fails.append(("standardize_curie/changes-meaning", f"{where}: expand({s!r}) = {gotx!r}, but the prefix standardises to {sp!r}, i.e. {wantx!r}"))
 
 
 def check_config(conv, model, Q, fails, where, ctx):
+    from ..impl import FoldingConverter
+
+    if isinstance(conv, FoldingConverter):
+        check_subclass(conv, model, Q, fails, where)
+        return
     pf = model.prefix_free()
     d = model.delimiter
     if ctx is not None:
